@@ -299,43 +299,81 @@ def sim_sleep(d):
 
 
 # ----------------------------------------------------------------- aiuti.asyncio
-class AsyncioSeams:
-    """Rebinds the module-level names of aiuti.asyncio for one run.
+import time as _time
 
-    Besides the named seams, *every* module-level threading.Lock becomes a fresh SimLock and every
-    module-level ALL_CAPS private dict/set registry is replaced by an empty one of the same type,
-    so trees that add or lack such globals (fixes, mutants) need no harness change.
+
+class _Seams:
+    """Rebinds, for one run, every module-level name of an Aiuti module that refers to a source of nondeterminism.
+
+    Matching is by *identity of the object the name is bound to*, not by the name, so import-style refactors
+    (`from time import sleep`, `import threading as th`, ...) and trees that add or drop globals (fixes, mutants)
+    need no harness change: threading.Lock/RLock, ThreadPoolExecutor, time.sleep/time/monotonic, the modules time /
+    threading / queue (and os / fcntl for the file lock), queue.Queue; every module-level lock *instance* becomes a
+    fresh SimLock, every executor instance a SimPool of the same size, and every private ALL_CAPS dict/set registry
+    is replaced by an empty one of the same type.
     """
-
-    NAMES = ('Lock', 'ThreadPoolExecutor', 'sleep', 'queue', '_CROSS_LOOP_POOL')
 
     def __init__(self, mod):
         self.mod = mod
         self.saved = {}
+        self.plan = None
+        self.module_pools = []
 
-    def install(self):
+    def table(self):
+        tm = TimeModule()
+        t = {
+            id(_threading.Lock): SimLock, id(_threading.RLock): SimRLock, id(_cf.ThreadPoolExecutor): SimPool,
+            id(_time.sleep): sim_sleep, id(_time.time): tm.time, id(_time.monotonic): tm.time,
+            id(_time): tm, id(_threading): ThreadingModule(), id(_queue): QueueModule, id(_queue.Queue): _SimQueue,
+        }
+        if self.plan is not None:
+            om, fm = OsModule(self.plan), FcntlModule(self.plan)
+            t.update({id(_os): om, id(_fcntl): fm, id(_os.open): om.open, id(_os.close): om.close,
+                      id(_fcntl.flock): fm.flock})
+        return t
+
+    def install(self, faults=None):
         m = self.mod
-        self.saved = {n: getattr(m, n) for n in self.NAMES}
+        if faults is not None:
+            self.plan = FaultPlan(faults)
+        table = self.table()
         lock_type = type(_RealLock())
-        for n, v in list(vars(m).items()):
-            if isinstance(v, lock_type):
-                self.saved[n] = v
-                setattr(m, n, SimLock())
-            elif n.startswith('_') and n.isupper() and type(v) in (dict, set):
-                self.saved[n] = v
-                setattr(m, n, type(v)())
+        rlock_type = type(_RealRLock())
         SimPool.registry = []
-        m.Lock = SimLock
-        m.ThreadPoolExecutor = SimPool
-        m.sleep = sim_sleep
-        m.queue = QueueModule
-        m._CROSS_LOOP_POOL = SimPool(32)
+        self.module_pools = []
+        for n, v in list(vars(m).items()):
+            if n.startswith('__'):
+                continue
+            new = table.get(id(v), None)
+            if new is None:
+                if isinstance(v, lock_type):
+                    new = SimLock()
+                elif isinstance(v, rlock_type):
+                    new = SimRLock()
+                elif isinstance(v, _cf.ThreadPoolExecutor):
+                    new = SimPool(getattr(v, '_max_workers', 32))
+                    self.module_pools.append(new)
+                elif n.startswith('_') and n.isupper() and type(v) in (dict, set):
+                    new = type(v)()
+            if new is not None:
+                self.saved[n] = v
+                setattr(m, n, new)
         return self
+
+    def shutdown_pools(self):
+        """Module-level executors live for the whole process in real life; end their sim workers with the run."""
+        for p in self.module_pools:
+            p.shutdown(wait=True)
 
     def restore(self):
         for n, v in self.saved.items():
             setattr(self.mod, n, v)
+        self.saved = {}
         SimPool.registry = []
+
+
+class AsyncioSeams(_Seams):
+    pass
 
 
 # ---------------------------------------------------------------- aiuti.filelock
@@ -453,24 +491,6 @@ class FcntlModule:
             s.block(lambda: plan.epoch != seen, None, 'flock')
 
 
-class FilelockSeams:
-    NAMES = ('time', 'threading', 'os', 'fcntl')
-
-    def __init__(self, mod):
-        self.mod = mod
-        self.saved = {}
-        self.plan = None
-
+class FilelockSeams(_Seams):
     def install(self, faults=()):
-        m = self.mod
-        self.saved = {n: getattr(m, n) for n in self.NAMES}
-        self.plan = FaultPlan(faults)
-        m.time = TimeModule()
-        m.threading = ThreadingModule()
-        m.os = OsModule(self.plan)
-        m.fcntl = FcntlModule(self.plan)
-        return self
-
-    def restore(self):
-        for n, v in self.saved.items():
-            setattr(self.mod, n, v)
+        return super().install(faults)
